@@ -103,11 +103,11 @@ class DictInsertionOrdered(PyContract):
     def post_exc(self, eng, st, entry, cls):
         return [('mode-set-unchanged-when-the-arguments-are-rejected', st.ghost['omega'] == entry.ghost['omega'])]
 
-    def at_yield(self, eng, st, entry, finalbody):
+    def at_yield(self, eng, st, entry, resume):
         o0, o1 = entry.ghost['omega'], st.ghost['omega']
         ns = self.effective_ns(entry)
         mode = eng.truth(st, entry.env.get('mode'))
-        line = finalbody[0].lineno
+        line = 0
         eng.oblige(st, 'III', 'enter:arguments-were-valid', z3.And(self.ns_ok(entry.env.get('namespace')),
                                                                    z3.Not(z3.And(is_str(entry.env.get('namespace')),
                                                                                  str_of(entry.env.get('namespace')) == EMPTY))), line)
@@ -115,13 +115,18 @@ class DictInsertionOrdered(PyContract):
         eng.oblige(st, 'III', 'enter:prev-is-the-non-inherited-mode-of-the-namespace',
                    eng.truth(st, st.env.get('prev')) == z3.Select(o0, ns), line)
         eng.oblige(st, 'IV', 'enter:lock-released-before-the-body-runs', z3.BoolVal(st.ghost['locks'] == ()), line)
-        # the with-body: any code that preserves Omega (induction hypothesis for nested blocks) - it may also raise;
-        # in both cases the generator's finally block runs from a state with Omega = o1
-        for kind in ('normal-exit', 'exception-exit'):
-            s = st.clone()
-            for s2, o in eng.ex_block(finalbody, s):
-                eng.oblige(s2, 'III', f'exit:{kind}:mode-set-restored-exactly', s2.ghost['omega'] == o0, line)
-                eng.oblige(s2, 'IV', f'exit:{kind}:lock-released', z3.BoolVal(s2.ghost['locks'] == ()), line)
+        # the with-body: any code that preserves Omega (induction hypothesis for nested blocks).  It may end normally, with an
+        # exception that is an Exception, or with one that is only a BaseException (KeyboardInterrupt, GeneratorExit,
+        # SystemExit): the generator is resumed accordingly from a state with Omega = o1 and must restore Omega in all cases
+        for kind, label in (('normal', 'normal-exit'), ('Exception', 'exception-exit'), ('BaseException', 'base-exception-exit')):
+            outs = resume(st.clone(), kind)
+            eng.oblige(st, 'III', f'exit:{label}:generator-terminates-after-the-body', z3.BoolVal(len(outs) >= 1), line)
+            for s2, o in outs:
+                if kind != 'normal':
+                    eng.oblige(s2, 'III', f'exit:{label}:the-exception-propagates',
+                               z3.BoolVal(o is not NORMAL and o[0] == 'raise' and o[1] == kind), line)
+                eng.oblige(s2, 'III', f'exit:{label}:mode-set-restored-exactly', s2.ghost['omega'] == o0, line)
+                eng.oblige(s2, 'IV', f'exit:{label}:lock-released', z3.BoolVal(s2.ghost['locks'] == ()), line)
 
 
 # ======================================================================================================================
@@ -840,3 +845,103 @@ class TreeTransposeMap(BroadcastVocabulary):
         out.append(('value-at-(inner j, outer k)-is-the-j-th-subtree-of-the-k-th-result',
                     z3.Implies(rng, col.at(k) == up_to(inner, func_result(k), j))))
         return out
+
+
+# ======================================================================================================================
+# C04: accessor.py - equal path entries / accessors hash equally (relational obligation over __eq__ and __hash__)
+
+py_eq = z3.Function('py_eq', Ref, Ref, Bool)                  # Python == on component values (an equivalence, A-EQ)
+py_hash_of = z3.Function('py_hash', Ref, Int)
+
+
+class EqHashRelational(PyContract):
+    """For all a, b:  a.__eq__(b) is True  ==>  hash(a) == hash(b).
+
+    Both methods are executed symbolically from their real source.  Attribute reads are uninterpreted functions of the
+    object; `==` between component tuples is component-wise Python equality py_eq; hash(tuple) is an uninterpreted function
+    of the component hashes.  Assumed about the components (A-EQ): py_eq is an equivalence relation and equal components have
+    equal hashes (true of ints, strs, types, bytes - the component types here)."""
+    module = 'optree/accessor.py'
+    cls = ''
+    function = ''
+
+    def setup(self, eng, st, fn):
+        st.env.vars['self'] = z3.Const('a', Ref)
+        x, y = z3.Consts('x!eq y!eq', Ref)
+        st.facts.append(z3.ForAll([x, y], z3.Implies(py_eq(x, y), py_hash_of(x) == py_hash_of(y)), patterns=[py_eq(x, y)]))
+        st.facts.append(z3.ForAll([x], py_eq(x, x)))
+
+    def attribute(self, eng, st, base, attr):
+        if is_z3(base) and base.sort() == Ref:
+            return z3.Function('attr_' + attr, Ref, Ref)(base)
+        return None
+
+    def global_name(self, eng, st, name):
+        if name == 'hash':
+            return BuiltinV('hash')
+        if name[:1].isupper():
+            return OpaqueV('class:' + name)
+        return None
+
+    def isinstance(self, eng, st, obj, cls):
+        if isinstance(cls, OpaqueV) and is_z3(obj):
+            return z3.Function('isinstance_' + cls.tag.split(':')[1], Ref, Bool)(obj)
+        return None
+
+    def equal(self, eng, st, a, b):
+        if isinstance(a, TupV) and isinstance(b, TupV):
+            if len(a.items) != len(b.items):
+                return z3.BoolVal(False)
+            return z3.And(*[py_eq(x, y) for x, y in zip(a.items, b.items)])
+        return None
+
+    def call(self, eng, st, f, args, kwargs, n, stars):
+        if isinstance(f, BuiltinV) and f.name == 'hash' and isinstance(args[0], TupV):
+            items = args[0].items
+            T = z3.Function(f'tuple_hash_{len(items)}', *([Int] * len(items)), Int)
+            return [(st, T(*[py_hash_of(x) for x in items]))]
+        return None
+
+    def truth_of(self, eng, st, v):
+        return v if is_z3(v) and z3.is_bool(v) else eng.truth(st, v)
+
+    def run_method(self, eng, st, name, args):
+        node = eng.funcs[f'{self.cls}.{name}']
+        f = FuncV(node, Env(), name)
+        outs = eng.call_function(st.clone(), f, args, {}, node)
+        return outs
+
+    def post(self, eng, st, entry, ret):
+        a, b = z3.Const('a', Ref), z3.Const('b', Ref)
+        ha = ret
+        out = []
+        hb_outs = self.run_method(eng, st, '__hash__', [b])
+        eq_outs = self.run_method(eng, st, '__eq__', [a, b])
+        if len(hb_outs) != 1:
+            return [('hash-is-a-single-expression', z3.BoolVal(False))]
+        hb = hb_outs[0][1]
+        if not (is_z3(ha) and is_z3(hb) and ha.sort() == Int):
+            return [('hash-is-the-hash-of-a-component-tuple', z3.BoolVal(False))]
+        # __eq__ may fork (short-circuit `and`): under each path condition, a True result must imply equal hashes
+        goals = []
+        for s_eq, v in eq_outs:
+            pcs = [p for p in s_eq.pc if all(not p.eq(q) for q in st.pc)]
+            goals.append(z3.Implies(z3.And(*pcs, self.truth_of(eng, s_eq, v)), ha == hb))
+        out.append(('equal-objects-hash-equally', z3.And(*goals) if goals else z3.BoolVal(False)))
+        # anti-vacuity: __eq__ is reflexive on instances of the class (so the implication above is not empty)
+        refl = []
+        for s_eq, v in self.run_method(eng, st, '__eq__', [a, a]):
+            pcs = [p for p in s_eq.pc if all(not p.eq(q) for q in st.pc)]
+            refl.append(z3.Implies(z3.And(*pcs), self.truth_of(eng, s_eq, v)))
+        inst = z3.Function('isinstance_' + self.cls, Ref, Bool)(a)
+        out.append(('eq-is-reflexive-on-instances', z3.Implies(inst, z3.And(*refl)) if refl else z3.BoolVal(False)))
+        return out
+
+
+from .engine import Env  # noqa: E402
+
+
+@pycontract
+class EntryEqHash(EqHashRelational):
+    cls = 'PyTreeEntry'
+    function = 'PyTreeEntry.__hash__'
